@@ -119,6 +119,9 @@ def spellings(t, mode):
         out.append(('mini-sp', G.spell(t, 'mini', ' ')))
         out.append(('safe-sp2', G.spell(t, 'safe', '  ')))
         out.append(('safe-nl', G.spell(t, 'safe', ' \n ')))
+        out.append(('mini-tab', G.spell(t, 'mini', '\t')))
+        out.append(('safe-crlf', G.spell(t, 'safe', '\r\n')))
+        out.append(('paren-tabsp', G.spell(t, 'paren', ' \t ')))
     if mode == 'all':
         for p in G.paths(t):
             out.append(('wrap1', G.spell(t, 'safe', '', {p: 1})))
@@ -195,11 +198,12 @@ def run_nest(case):
 ARG_ATOMS = [
     ('1', "1"), ('x+y', '2+3'), ('text,', '"a,b"'), ('text;)', '"x;)("'), ('text{', '"{1,2}"'), ('text"', '"q""r"'),
     ('call', 'SUM(4,5)'), ('union', '(B1,C1)'), ('array', '{1,2;3,4}'), ('neg', '-6'), ('empty', ''),
+    ('text=,', '","'), ('text=)', '")"'), ('text=(', '"("'),
 ]
 ARG_EXPR = {
     '1': ('1', '1'), 'x+y': ('(2 + 3)', '5'), 'text,': ('"a,b"', "'a,b'"), 'text;)': ('"x;)("', "'x;)('"), 'text{': ('"{1,2}"', "'{1,2}'"),
     'text"': ('"q""r"', "'q\"r'"), 'call': ('SUM(4, 5)', '9'), 'union': ('(B1, C1)', 'R[B1,C1]'), 'array': ('ARRAY(ARRAY(1, 2), ARRAY(3, 4))', 'A[[1,2],[3,4]]'),
-    'neg': ('-6', '-6'), 'empty': ('', 'EMPTY'),
+    'neg': ('-6', '-6'), 'empty': ('', 'EMPTY'), 'text=,': ('","', "','"), 'text=)': ('")"', "')'"), 'text=(': ('"("', "'('"),
 }
 
 
@@ -208,7 +212,7 @@ def call_cases(tier):
     maxn = 3 if tier == 'quick' else 4
     for n in range(0, maxn + 1):
         for combo in itertools.product(keys, repeat=n):
-            for sp in ('', ' '):
+            for sp in ('', ' ') + (('\t',) if n <= 2 else ()):
                 for nested in (False, True):
                     yield ['call', list(combo), sp, nested]
 
@@ -273,7 +277,7 @@ def run_call(case):
     return result(2, oc, fails)
 
 
-ELEMS = [('1', N(1)), ('-2', N(-2)), ('"a,b;c"', T('a,b;c')), ('TRUE', B(True)), ('#N/A', NA), ('0.5', N(0.5)), ('"}"', T('}'))]
+ELEMS = [('1', N(1)), ('-2', N(-2)), ('"a,b;c"', T('a,b;c')), ('TRUE', B(True)), ('#N/A', NA), ('0.5', N(0.5)), ('"}"', T('}')), ('","', T(',')), ('";"', T(';'))]
 
 
 def array_cases(tier):
